@@ -663,18 +663,40 @@ impl DebuggingInformationEntry {
         abbrevs: &mut AbbreviationTable,
         codes: &mut [u64],
     ) -> Result<()> {
+        // This uses an explicit stack instead of recursion so that deeply nested
+        // entries can't overflow the call stack.
+        self.calculate_offset(unit, offset, offsets, abbrevs, codes)?;
+        let mut stack = vec![(self, 0)];
+        while let Some(&mut (entry, ref mut child_index)) = stack.last_mut() {
+            if let Some(child) = entry.children.get(*child_index) {
+                *child_index += 1;
+                let child = &unit.entries[child.index];
+                child.calculate_offset(unit, offset, offsets, abbrevs, codes)?;
+                stack.push((child, 0));
+            } else {
+                if !entry.children.is_empty() {
+                    // Null child
+                    *offset += 1;
+                }
+                stack.pop();
+            }
+        }
+        Ok(())
+    }
+
+    /// Calculate the offset and abbreviation code of this entry, excluding its children.
+    fn calculate_offset(
+        &self,
+        unit: &Unit,
+        offset: &mut usize,
+        offsets: &mut UnitOffsets,
+        abbrevs: &mut AbbreviationTable,
+        codes: &mut [u64],
+    ) -> Result<()> {
         offsets.entries[self.id.index] = DebugInfoOffset(*offset);
         let code = abbrevs.add(self.abbreviation(unit.encoding())?);
         codes[self.id.index] = code;
         *offset += self.size(unit, offsets, code)?;
-        if !self.children.is_empty() {
-            for child in &self.children {
-                unit.entries[child.index]
-                    .calculate_offsets(unit, offset, offsets, abbrevs, codes)?;
-            }
-            // Null child
-            *offset += 1;
-        }
         Ok(())
     }
 
@@ -704,6 +726,73 @@ impl DebuggingInformationEntry {
         range_lists: &RangeListOffsets,
         loc_lists: &LocationListOffsets,
     ) -> Result<()> {
+        // This uses an explicit stack instead of recursion so that deeply nested
+        // entries can't overflow the call stack.
+        let sibling_offset = self.write_entry(
+            w,
+            debug_info_refs,
+            unit_refs,
+            unit,
+            offsets,
+            codes,
+            line_program,
+            line_strings,
+            strings,
+            range_lists,
+            loc_lists,
+        )?;
+        let mut stack = vec![(self, 0, sibling_offset)];
+        while let Some(&mut (entry, ref mut child_index, sibling_offset)) = stack.last_mut() {
+            if let Some(child) = entry.children.get(*child_index) {
+                *child_index += 1;
+                let child = &unit.entries[child.index];
+                let sibling_offset = child.write_entry(
+                    w,
+                    debug_info_refs,
+                    unit_refs,
+                    unit,
+                    offsets,
+                    codes,
+                    line_program,
+                    line_strings,
+                    strings,
+                    range_lists,
+                    loc_lists,
+                )?;
+                stack.push((child, 0, sibling_offset));
+            } else {
+                if !entry.children.is_empty() {
+                    // Null child
+                    w.write_u8(0)?;
+                }
+                if let Some(offset) = sibling_offset {
+                    let next_offset = (w.offset().0 - offsets.unit.0) as u64;
+                    // This does not need relocation.
+                    w.write_udata_at(offset.0, next_offset, unit.format().word_size())?;
+                }
+                stack.pop();
+            }
+        }
+        Ok(())
+    }
+
+    /// Write the abbreviation code and attributes of this entry, excluding its children.
+    ///
+    /// Returns the offset of the placeholder for the `DW_AT_sibling` value, if any.
+    fn write_entry<W: Writer>(
+        &self,
+        w: &mut DebugInfo<W>,
+        debug_info_refs: &mut Vec<DebugInfoFixup>,
+        unit_refs: &mut Vec<(DebugInfoOffset, UnitEntryId)>,
+        unit: &Unit,
+        offsets: &UnitOffsets,
+        codes: &[u64],
+        line_program: Option<DebugLineOffset>,
+        line_strings: &LineStringTable,
+        strings: &StringTable,
+        range_lists: &RangeListOffsets,
+        loc_lists: &LocationListOffsets,
+    ) -> Result<Option<DebugInfoOffset>> {
         debug_assert_eq!(offsets.debug_info_offset(self.id), Some(w.offset()));
         w.write_uleb128(codes[self.id.index])?;
 
@@ -729,33 +818,7 @@ impl DebuggingInformationEntry {
                 loc_lists,
             )?;
         }
-
-        if !self.children.is_empty() {
-            for child in &self.children {
-                unit.entries[child.index].write(
-                    w,
-                    debug_info_refs,
-                    unit_refs,
-                    unit,
-                    offsets,
-                    codes,
-                    line_program,
-                    line_strings,
-                    strings,
-                    range_lists,
-                    loc_lists,
-                )?;
-            }
-            // Null child
-            w.write_u8(0)?;
-        }
-
-        if let Some(offset) = sibling_offset {
-            let next_offset = (w.offset().0 - offsets.unit.0) as u64;
-            // This does not need relocation.
-            w.write_udata_at(offset.0, next_offset, unit.format().word_size())?;
-        }
-        Ok(())
+        Ok(sibling_offset)
     }
 }
 
